@@ -7,6 +7,6 @@ if ! git diff --quiet; then echo "repo not clean"; exit 2; fi
 git apply "/verif/seeded/$name/patch.diff" || { echo "patch does not apply"; exit 2; }
 for p in "$@"; do
   echo "== $name under $p"
-  (cd /verif && ./check "$p" quick 2>&1 | grep -E 'VIOLATION|UNDECIDED|KNOWN|^jvc:' | cut -c1-260 | head -12; )
+  (cd /verif && JVC_NO_EVIDENCE=1 ./check "$p" quick 2>&1 | grep -E 'VIOLATION|UNDECIDED|KNOWN|^jvc:' | cut -c1-260 | head -12; )
 done
 git -C /repo checkout -- .
